@@ -371,6 +371,11 @@ func needsValidateHierarchicalQueue(queue, oldQueue *schedulingv1beta1.Queue, op
 }
 
 func validateHierarchicalQueue(queue *schedulingv1beta1.Queue) error {
+	// The root queue is the top of the hierarchy: with a parent it would become its own descendant.
+	if queue.Name == "root" && queue.Spec.Parent != "" {
+		return fmt.Errorf("root queue cannot have a parent queue")
+	}
+
 	if queue.Spec.Parent == "" || queue.Spec.Parent == "root" {
 		return nil
 	}
